@@ -146,6 +146,31 @@ def _random_walk(draw, hi):
     return {"g": g, "kind": "solved", "sol": [list(q) for q in p], "seq": seq}
 
 
+def check_twins(case: dict):
+    """mazes of different shapes holding the same flags in the same flat order, drawn one after the other in one process"""
+    out = None
+    for sub_case in case["seq_cases"]:
+        out = check(sub_case)
+    return {"nt": bool(out and out.get("nt")), "labels": ["twins"]}
+
+
+@st.composite
+def _twins(draw):
+    from mzverif.props import C13
+
+    tw = draw(C13._twins())
+    cases = []
+    for r, c in tw["order"]:
+        g = {"r": r, "c": c, "cl": tw["cl"]}
+        a = M.adj(g)
+        s0 = tuple(draw(G.cell_in(r, c)))
+        far = sorted(M.bfs(a, s0).items(), key=lambda kv: (-kv[1], kv[0]))[0][0]
+        sol = [list(q) for q in M.shortest_path(a, s0, far)]
+        kind = draw(st.sampled_from(["lattice", "solved", "targeted"])) if len(sol) >= 2 else "lattice"
+        cases.append({"g": g, "kind": kind, "sol": sol, "seq": [[True, True]] if kind != "lattice" or True else []})
+    return {"seq_cases": cases}
+
+
 @st.composite
 def _big(draw, shortest):
     # up to 127 cells per side the coordinates are stored as int8; 129 / 130 / 150 lie beyond what int8 can hold at all
@@ -197,5 +222,6 @@ def subs(tier: str):
         Sub("random", check, "hypothesis", strategy=lambda: _random(12 if q else 20), examples=80 if q else 1200),
         Sub("any-valid-solution-exhaustive<=2x3", check, "exhaustive", cases=_exhaustive_walks, exhaustive_flag=True),
         Sub("large-grids-int8", check, "hypothesis", strategy=lambda: _big(False), examples=3 if q else 40),
+        Sub("same-flags-other-shape", check_twins, "hypothesis", strategy=_twins, examples=15 if q else 300),
         Sub("any-valid-solution-random", check, "hypothesis", strategy=lambda: _random_walk(8 if q else 14), examples=60 if q else 1000),
     ]
